@@ -68,9 +68,14 @@ Fixpoint csv_write_fields (sep : N) (fs : list str) : str :=
   | f :: r => csv_write_field sep f ++ sep :: csv_write_fields sep r
   end.
 
-(* Writer.Write *)
+(* encodeRow: a record that is one empty field is written quoted by yq itself
+   (repaired in /repo: Writer.Write would emit a blank line, which is no
+   record); every other record goes through Writer.Write *)
+Definition lone_empty (fs : list str) : bool :=
+  match fs with [[]] => true | _ => false end.
+
 Definition csv_write_record (sep : N) (fs : list str) : str :=
-  csv_write_fields sep fs ++ [c_nl].
+  if lone_empty fs then [c_dq; c_dq; c_nl] else csv_write_fields sep fs ++ [c_nl].
 
 Definition csv_write (sep : N) (rows : list (list str)) : str :=
   concat (List.map (csv_write_record sep) rows).
@@ -230,8 +235,13 @@ Definition csv_rows_of (n : cnode) : option (list (list str)) :=
 Definition csv_encode (sep : N) (n : cnode) : option str :=
   match n with
   | CScalar v => Some (v ++ [c_nl])
-  | _ => if csv_valid_sep sep then option_map (csv_write sep) (csv_rows_of n) else
-           match n with CSeq [] => Some [] | _ => None end
+  | _ =>
+      match csv_rows_of n with
+      | Some rows =>
+          (* errInvalidDelim comes from Writer.Write, which lone empty records do not reach *)
+          if csv_valid_sep sep || forallb lone_empty rows then Some (csv_write sep rows) else None
+      | None => None
+      end
   end.
 
 (* in-expression form: encodeOperator chomps all trailing newlines for CSV/TSV *)
@@ -251,7 +261,7 @@ Definition csv_read_obs (sep : N) (text : str) : str :=
   end.
 
 Definition csv_write_obs (sep : N) (rows : list (list str)) : str :=
-  if csv_valid_sep sep then 79 :: csv_write sep rows else [69].
+  if csv_valid_sep sep || forallb lone_empty rows then 79 :: csv_write sep rows else [69].
 
 Definition csv_decode_obs (sep : N) (text : str) : str :=
   match csv_decode sep text with
